@@ -101,11 +101,23 @@ extern int mpt_queue_recv(MPT_STRUCT(decode_queue) *qu)
 	if (mpt_qpre(&qu->data, max) < 0) {
 		return MPT_ERROR(MissingBuffer);
 	}
-	/* correct data area offsets */
-	qu->_state.data.pos += max;
+	/* decoder needs space between decoded and encoded data:
+	 * keep message start, move partial message to front of new area */
+	if ((len = qu->_state.data.len)) {
+		uint8_t buf[256];
+		size_t to = qu->_state.data.pos, from = to + max;
+		while (len) {
+			size_t part = len < sizeof(buf) ? len : sizeof(buf);
+			mpt_queue_get(&qu->data, from, part, buf);
+			mpt_queue_set(&qu->data, to, part, buf);
+			from += part;
+			to += part;
+			len -= part;
+		}
+	}
 	qu->_state.curr += max;
 	
-	/* retry with bigger prefix space */
+	/* retry with bigger scratch space */
 	max = vectorSet(&qu->data, src);
 	if ((res = qu->_dec(&qu->_state, src, max)) < 0) {
 		return res;
